@@ -79,21 +79,25 @@ func (ctx *context) ModuleInit(impl *py.ModuleImpl) (*py.Module, error) {
 	}
 	defer ctx.popBusy()
 
-	if impl.Code == nil && len(impl.CodeSrc) > 0 {
-		impl.Code, err = py.Compile(string(impl.CodeSrc), impl.Info.FileDesc, py.ExecMode, 0, true)
+	// The ModuleImpl may be registered process wide and initialised by
+	// many contexts at once, so the code made from CodeSrc / CodeBuf is
+	// kept in a local rather than written back into it
+	code := impl.Code
+	if code == nil && len(impl.CodeSrc) > 0 {
+		code, err = py.Compile(string(impl.CodeSrc), impl.Info.FileDesc, py.ExecMode, 0, true)
 		if err != nil {
 			return nil, err
 		}
 	}
 
-	if impl.Code == nil && len(impl.CodeBuf) > 0 {
+	if code == nil && len(impl.CodeBuf) > 0 {
 		codeBuf := bytes.NewBuffer(impl.CodeBuf)
 		obj, err := marshal.ReadObject(codeBuf)
 		if err != nil {
 			return nil, err
 		}
-		impl.Code, _ = obj.(*py.Code)
-		if impl.Code == nil {
+		code, _ = obj.(*py.Code)
+		if code == nil {
 			return nil, py.ExceptionNewf(py.AssertionError, "Embedded code did not produce a py.Code object")
 		}
 	}
@@ -103,8 +107,8 @@ func (ctx *context) ModuleInit(impl *py.ModuleImpl) (*py.Module, error) {
 		return nil, err
 	}
 
-	if impl.Code != nil {
-		_, err = ctx.RunCode(impl.Code, module.Globals, module.Globals, nil)
+	if code != nil {
+		_, err = ctx.RunCode(code, module.Globals, module.Globals, nil)
 		if err != nil {
 			return nil, err
 		}
